@@ -235,6 +235,12 @@ class BackendHarness:
                 viol("C15", "spurious-error", f"nothing failed but the call raised {exc_class(e)}: {e}")
         elif vic[2] != b"<victim>" and self.consume == "request":
             viol("C01", "wrong-body", f"victim got {vic[2]!r}")
+        if self.framing in ("close", "http10") and inj and self.consume == "request" and vic[0] == "ok":
+            name_, fop_ = inj[-1][1], ledger[inj[-1][0]].kind
+            if fop_ == "read" and name_ not in fakeos.SOFT and not b"warm" in bytes(str(ledger[inj[-1][0]].args), "latin1"):
+                # a close-delimited body ends with the peer's orderly close; a connection that BREAKS instead has not delivered a complete body
+                viol("C02", "silent-truncation", f"{name_} raised by the OS-level read of a {self.framing}-delimited body, yet the call returned a body ({vic[2]!r}) as if the "
+                     f"server had closed in good order", framing=self.framing)
         if self.framing and not inj and self.consume == "request":
             if vic[0] == "exc":
                 viol("C02", "framed-body-error", f"a well-formed {self.framing}-framed response, nothing failed, yet the call raised {exc_class(vic[1])}: {vic[1]}", framing=self.framing)
